@@ -290,6 +290,7 @@ def metric_case():
       'cuts_a': st.lists(st.integers(0, 24), max_size=5),
       'cuts_b': st.lists(st.integers(0, 24), max_size=5),
       'scalars': st.booleans(), 'classes': st.integers(2, 4),
+      'block': st.sampled_from([1, 1, 2, 3]),
       'threshold': st.one_of(st.none(), st.sampled_from([0.0, 0.5])),
       'seed': st.integers(0, 2**16)})
 
@@ -301,7 +302,8 @@ def partition(n, cuts):
 
 @clause('metrics', strategy=metric_case, quick=400, thorough=20000,
         quick_shards=8, thorough_shards=16, shrink=False,
-        rule='value streams (1-24 bounded floats, also fed as Python scalars)'
+        rule='value streams (1-24 bounded floats, also fed as Python scalars and '
+        'as rank-2 (rows, k) blocks)'
         ' and label/logit streams x two random partitions into batches: '
         'Average / Welford (mean, population std, standard error) / Accuracy '
         '(multi-class and thresholded binary) / MultiMetric report the '
@@ -321,6 +323,16 @@ def metrics(case, ctx):
   thr = case['threshold']
   tol = dict(rtol=2e-4, atol=2e-4)
 
+  blk = case['block']
+
+  def shaped(arr, extra=()):
+    # the same values as a (rows, blk) block when the batch divides evenly
+    # (e.g. per-token losses of shape (batch, seq_len))
+    n_ = arr.shape[0]
+    if blk > 1 and n_ % blk == 0 and n_ > 0:
+      return arr.reshape((n_ // blk, blk) + tuple(arr.shape[1:]))
+    return arr
+
   def feed(metric, part, kind):
     for a, b in part:
       if kind == 'values':
@@ -328,10 +340,10 @@ def metrics(case, ctx):
           for x in vals[a:b]:
             metric.update(values=float(x))
         else:
-          metric.update(values=jnp.asarray(vals[a:b], jnp.float32))
+          metric.update(values=jnp.asarray(shaped(vals[a:b]), jnp.float32))
       elif kind == 'acc':
-        metric.update(logits=jnp.asarray(logits[a:b]),
-                      labels=jnp.asarray(labels[a:b]))
+        metric.update(logits=jnp.asarray(shaped(logits[a:b])),
+                      labels=jnp.asarray(shaped(labels[a:b])))
       elif kind == 'bin':
         metric.update(logits=jnp.asarray(bl[a:b]), labels=jnp.asarray(
             blab[a:b]))
@@ -389,5 +401,5 @@ def metrics(case, ctx):
         float(w.compute().mean), 3.0) and np.isclose(
             float(w.compute().standard_deviation), 1.0),
             'reset did not clear the metric')
-  ctx.note(labels=['scalars' if case['scalars'] else 'arrays'],
+  ctx.note(labels=['scalars' if case['scalars'] else 'arrays', f'block{blk}'],
            nontrivial=pa != pb and len(pa) >= 2 and len(pb) >= 2)
